@@ -27,12 +27,12 @@ import (
 	"time"
 
 	"github.com/robinbraemer/event"
-	"go.minekube.com/brigodier"
 
 	"go.minekube.com/gate/pkg/command"
 	jconfig "go.minekube.com/gate/pkg/edition/java/config"
 	"go.minekube.com/gate/pkg/edition/java/proto/packet/chat"
 	"go.minekube.com/gate/pkg/edition/java/proto/state"
+	"go.minekube.com/gate/pkg/edition/java/proto/state/states"
 	"go.minekube.com/gate/pkg/edition/java/proxy"
 	"go.minekube.com/gate/pkg/edition/java/proxy/verifh/e2e"
 	"go.minekube.com/gate/pkg/edition/java/proxy/verifh/lib"
@@ -184,7 +184,7 @@ func idTable(pv int) (*e2eIDs, map[string]int, error) {
 // decodeBackend turns one record of the fake backend into (kind, command text) with the
 // independent decoder; ok=false for packets that carry no chat/command.
 func (t *e2eIDs) decodeBackend(r *e2e.Rec, pv int) (kind, text string, ok bool) {
-	if r.State.String() != "Play" && !strings.EqualFold(r.State.String(), "play") {
+	if r.State != states.PlayState {
 		return "", "", false
 	}
 	k, known := t.ids[r.ID]
@@ -533,5 +533,3 @@ func runE2E(r *lib.Run, nTrees, sessionsPerTree, casesPerSession int) {
 	r.Set("e2e_rewritten_lines_received_by_backend_by_family", rebuilt)
 	r.Set("e2e_grey_class_branch_taken_by_gate", greyTaken)
 }
-
-var _ = brigodier.Literal
